@@ -5,3 +5,5 @@ mod treap_node;
 pub use print::TreePrinter;
 pub use treap::Treap;
 pub use treap_node::{TreapItem, TreapItemSized, TreapNode};
+#[cfg(feature = "verif")]
+pub use treap_node::verif_reseed_priorities;
